@@ -133,6 +133,18 @@ func (its *TransactionDatatype) BeginTransaction(
 	return its.txCtx
 }
 
+// BeginRead makes a read wait for the operation or transaction another goroutine is in the middle
+// of, so that it never observes half of it. It returns the function that ends the read. A caller
+// inside its own transaction (txCtx is that transaction's context) already holds the lock.
+func (its *TransactionDatatype) BeginRead(txCtx *TransactionContext) func() {
+	if txCtx != nil {
+		return func() {}
+	}
+	simhook.BeforeLock(its.mutex, false)
+	its.mutex.RLock()
+	return its.mutex.RUnlock
+}
+
 // Rollback is called to rollback a transaction
 func (its *TransactionDatatype) Rollback() errors.OrdaError {
 	its.L().Infof("Begin the rollback: '%s'", its.txCtx.tag)
